@@ -110,7 +110,9 @@ impl StateMachine<'_> {
 
     #[inline]
     fn test_diff_header_plus_line(&self) -> bool {
-        (matches!(self.state, State::DiffHeader(_)) || self.source == Source::DiffUnified)
+        // Also in a plain unified diff the `--- ` header line has set this state; inside a
+        // hunk a line starting with `+++ ` is an added line (`++ x`), not a header.
+        matches!(self.state, State::DiffHeader(_))
             && (self.line.starts_with("+++ ")
                 || self.line.starts_with("rename to ")
                 || self.line.starts_with("copy to "))
